@@ -239,6 +239,7 @@ scan_region (const unsigned char *p, size_t n)
 
 /* ------------------------------------------------------------------ interposers */
 static int in_lib;                 /* a library call is running */
+static int ncfe;                   /* compression-function events of the current call */
 static int req_no, fault_at, fault_at2; /* allocator/mapping request counter and fault schedule */
 static int n_wipes;
 static size_t wiped_bytes;
@@ -725,6 +726,7 @@ tramp (void)
 static void
 run_call (void (*fn) (void))
 {
+  ncfe = 0;
   req_no = 0; nled = 0; n_wipes = 0; wiped_bytes = 0; leak_free = leak_unmap = 0; bad_free = 0;
   stack_hits = 0;
   snap_statics ();
@@ -803,6 +805,40 @@ static void call_setkey_r (void) { errno = 0; f_setkey_r (a_key, a_data); r_errn
 static void call_encrypt_r (void) { errno = 0; f_encrypt_r (a_block, a_edflag, a_data); r_errno = errno; }
 static void call_setkey (void) { errno = 0; f_setkey (a_key); r_errno = errno; }
 static void call_encrypt (void) { errno = 0; f_encrypt (a_block, a_edflag); r_errno = errno; }
+
+/* ------------------------------------------------------------------ compression-function events (XCRYPT_VERIF hook) */
+static int cfs_on;
+#define MAXCFE 120000
+static struct cfe { char alg[10]; unsigned char il, bl, ol; unsigned char in[128], blk[128], outb[64]; } *cfe;
+typedef void (*sink_t) (const char *, const void *, size_t, const void *, size_t, const void *, size_t);
+static void
+cf_sink (const char *ev, const void *a, size_t al, const void *b, size_t bl, const void *c, size_t cl)
+{
+  if (!cfs_on || !in_lib || ncfe >= MAXCFE || al > 128 || bl > 128 || cl > 64)
+    return;
+  struct cfe *x = &cfe[ncfe++];
+  snprintf (x->alg, sizeof x->alg, "%s", ev);
+  x->il = (unsigned char) al; x->bl = (unsigned char) bl; x->ol = (unsigned char) cl;
+  memcpy (x->in, a, al); memcpy (x->blk, b, bl); memcpy (x->outb, c, cl);
+}
+static void
+emit_cfs (void)
+{
+  if (!cfs_on)
+    return;
+  fprintf (out, ",\"cfs\":[");
+  for (int i = 0; i < ncfe; i++)
+    {
+      fprintf (out, "%s{\"a\":\"%s\",\"in\":", i ? "," : "", cfe[i].alg);
+      jstr_codes (cfe[i].in, cfe[i].il);
+      fprintf (out, ",\"blk\":");
+      jstr_codes (cfe[i].blk, cfe[i].bl);
+      fprintf (out, ",\"out\":");
+      jstr_codes (cfe[i].outb, cfe[i].ol);
+      fprintf (out, "}");
+    }
+  fprintf (out, "]");
+}
 
 /* ------------------------------------------------------------------ projections */
 static int hlive (void);
@@ -984,6 +1020,15 @@ main (int argc, char **argv)
         log_pc = atoi (t0);
       else if (!strcmp (cmd, "wprot"))
         wprot_mode = atoi (t0);
+      else if (!strcmp (cmd, "cfs"))
+        { /* record the compression-function applications of each call (needs the hooks build) */
+          cfs_on = atoi (t0);
+          if (cfs_on && !cfe)
+            cfe = __libc_malloc (sizeof (struct cfe) * MAXCFE);
+          sink_t *sp = (sink_t *) dlsym (lib, "_crypt_verif_sink");
+          if (sp)
+            *sp = cfs_on ? cf_sink : 0;
+        }
       else if (!strcmp (cmd, "stack"))
         stack_mode = atoi (t0);
       else if (!strcmp (cmd, "fault"))
@@ -1028,6 +1073,7 @@ main (int argc, char **argv)
           emit_obj_projection (o->p, pre_img, o);
           emit_statics_written ();
           emit_ledger ();
+          emit_cfs ();
           fprintf (out, "}\n");
           o->has_deskey = 0;
         }
